@@ -169,7 +169,7 @@ fn cmdlang() -> Result<u32, String>
     let dir = scratch("cmd");
     let mut r = XorShift::new(7);
     let mut n = 0;
-    for case in 0..60u64
+    for case in 0..300u64
     {
         let d = dir.join(format!("c{}", case));
         std::fs::create_dir_all(&d).map_err(|e| format!("{}", e))?;
@@ -187,9 +187,13 @@ fn cmdlang() -> Result<u32, String>
         {
             let t = format!("t{}", k);
             let s = format!("s{}", 1 + r.below(3));
-            chain.push(match r.below(7)
+            chain.push(match r.below(11)
             {
                 0 => Instr::EmitCopy { t, src: s },
+                7 => Instr::EmitCopyP { t, src: s },
+                8 => Instr::EmitLink { t, src: s },
+                9 => Instr::Noise { err: 70000, out: 10 },
+                10 => Instr::DieIf { flag: s, how: (k % 4) as u8 },
                 1 => Instr::EmitConst { t, tag: format!("K{}", k) },
                 2 => Instr::EmitMix { t, tag: format!("T{}", k), srcs: vec![s, format!("s{}", 1 + r.below(3))] },
                 3 => Instr::FailOn { src: s, content: "v1".to_string() },
